@@ -58,7 +58,10 @@ RULE = ("random bounded models (gen_model, autonomous, 2-4 states, 1-4 parameter
         "theta as list / tuple / ndarray / numpy scalars; y, x0, t, weights, spread as float or int containers; 15 % of the scripts on a grid "
         "with replicate times, 15 % on a grid moved far from the time origin.  A history case "
         "is non-trivial when at least two calls were judged against the reference for the values the object currently holds.")
-ASSUMPTIONS = ["observation grids the unchanged pygom / scipy refuse with an error are outside the property's domain and only tagged: a first "
+ASSUMPTIONS = ["an IntegrationError raised by an evaluation is not judged when scipy's own lsoda (scipy.integrate.ode on the oracle's right-hand "
+               "side, no pygom) fails on the same instance (observed: derivative exactly zero at x0, far negative t0, increments that are not "
+               "representable): tagged unjudged:scipy-lsoda-refuses-this-instance",
+               "observation grids the unchanged pygom / scipy refuse with an error are outside the property's domain and only tagged: a first "
                "observation at t0 and times one ulp apart (zero / sub-resolution step: lsoda 'illegal input'), a one-point grid with several "
                "observed states, replicate times when the constructor's trial integrate2 restarts a dopri5 integrator on the zero-length step or "
                "the right-hand side is identically zero; residual() turns a failed integration into an array of the largest float by design",
@@ -129,6 +132,28 @@ def _custom_setup(r, kind, want_order):
     return {"model": {"src": "random", "spec": spec, "meta": {"kinds": meta["kinds"]}}, "states": states, "params": params, "theta_true": theta,
             "theta_eval": [round(v * r.uniform(0.8, 1.25), 4) for v in theta], "x0": x0, "x0_eval": [round(v * r.uniform(0.85, 1.2), 4) for v in x0],
             "t0": 0.0, "times": times, "grid": grid, "obs": obs}
+
+
+def scipy_lsoda_refuses(rhs, theta, x0, t0, times):
+    """does scipy's own lsoda (scipy.integrate.ode, the tolerances pygom uses, the oracle's right-hand side - no pygom involved)
+    fail on this instance?  The property assumes that the solver approximates the flow; where scipy itself gives up - observed:
+    a right-hand side that is exactly zero at x0 together with a far negative t0 and increments that are not representable makes
+    lsoda report 'illegal input' - pygom raises IntegrationError, rightly, and there is nothing to judge."""
+    import warnings
+    import scipy.integrate as si
+    th = [float(v) for v in theta]
+    try:
+        with warnings.catch_warnings():
+            warnings.simplefilter("ignore")
+            r = si.ode(lambda t, x: rhs(t, x, th)).set_integrator("lsoda", nsteps=10000, atol=1e-10, rtol=1e-10)
+            r.set_initial_value(np.array(x0, float), float(t0))
+            for t in times:
+                r.integrate(float(t))
+                if not r.successful():
+                    return True
+    except Exception:
+        return True
+    return False
 
 
 def _ulp_after(v):
@@ -510,6 +535,10 @@ def run_loss(case):
         except Exception as exc:
             if unsupported(exc):
                 tags.append("unsupported:%s:%s" % (gv, type(exc).__name__))
+                continue
+            if type(exc).__name__ == "IntegrationError" and any(scipy_lsoda_refuses(rhs, th_, x_, s["t0"], s["times"])
+                                                                for th_, x_ in ((th_true, s["x0"]), (th_eval, s["x0"]), (th_eval, x0_iv))):
+                tags.append("unjudged:scipy-lsoda-refuses-this-instance")
                 continue
             viol.append({"what": "%sLoss evaluation raised %s: %s" % (cls, type(exc).__name__, str(exc)[:200]),
                          "signature": sg("cost") + ":raises:" + type(exc).__name__, "detail": json.dumps(case)[:1500]})
